@@ -31,8 +31,8 @@ def _dup(runs):
 
 
 def run(sc, tier, replay):
-    strata = {"core": (["nodupkey", "nodirid", "nofragdirs", "oddids", "biglists", "richargs"], 0.75),
-              "abstract": (["nodupkey", "nodirid", "nofragdirs", "abstract", "biglists"], 0.25)}
+    strata = {"core": (["nodirid", "nofragdirs", "oddids", "biglists", "richargs"], 0.75),
+              "abstract": (["nodirid", "nofragdirs", "abstract", "biglists"], 0.25)}
     return fedcheck.run_fed_check(
         sc, tier, PID, ["C12"], "model_checking",
         {"quick": (420, 12), "thorough": (6000, 25)},
